@@ -339,9 +339,9 @@ func exprD(v ssa.Value, d int, seen *ectx) string {
 	}
 	switch x := v.(type) {
 	case *ssa.Parameter:
-		return x.Name()
+		return canonParamName(x)
 	case *ssa.FreeVar:
-		return x.Name()
+		return freeVarName(x)
 	case *ssa.Const:
 		if x.Value == nil {
 			return "nil"
@@ -431,12 +431,12 @@ func exprD(v ssa.Value, d int, seen *ectx) string {
 			return r
 		}
 		if x.Comment != "" {
-			return "&" + x.Comment
+			return "&" + allocName(x)
 		}
 		return "&alloc"
 	case *ssa.Phi:
 		if seen.m[v] {
-			return "phi:" + x.Comment
+			return "phi:" + phiName(x)
 		}
 		seen.m[v] = true
 		var parts []string
